@@ -1,6 +1,7 @@
 package s3afero
 
 import (
+	"bytes"
 	"crypto/md5"
 	"encoding/hex"
 	"fmt"
@@ -450,6 +451,15 @@ func (db *MultiBucketBackend) PutObject(
 	meta map[string]string,
 	input io.Reader, size int64,
 ) (result gofakes3.PutObjectResult, err error) {
+
+	// Read and validate the complete upload (declared size, Content-MD5) before
+	// the destination is touched: a rejected or interrupted upload must leave
+	// the previously stored object as it was.
+	bts, err := gofakes3.ReadAll(input, size)
+	if err != nil {
+		return result, err
+	}
+	input = bytes.NewReader(bts)
 
 	err = gofakes3.MergeMetadata(db, bucketName, objectName, meta)
 	if err != nil {
